@@ -397,6 +397,9 @@ fn gen_listener(rng: &mut Rng) -> crate::net::NetScenario {
         ..Default::default()
     };
     let n = rng.range(1, 2);
+    // the deadline applies to the wait for the header and to the exchange after it, each on its own: a header that takes
+    // most of the time allowed and an exchange that takes most of the time allowed are both in time
+    let timeout = secs(*rng.pick(&[60u64, 60, 8, 4]));
     let clients = (0..n)
         .map(|i| {
             let intent = *rng.pick(&[1, 1, 2, 3]);
@@ -411,20 +414,34 @@ fn gen_listener(rng: &mut Rng) -> crate::net::NetScenario {
             // cuts anywhere in the header and the first frames
             for _ in 0..rng.range(1, 4) {
                 let at = if rng.chance(2, 3) { rng.range(1, hl - 1) } else { rng.range(hl, hl + 60) };
-                let gate = match rng.below(4) {
+                let gate = match rng.below(5) {
                     0 => Gate::Now,
                     1 => Gate::Delay { ns: 1_000 },
                     2 => Gate::Delay { ns: ms(rng.range(1, 900)) },
+                    3 => Gate::Delay { ns: timeout / 100 * rng.range(30, 80) },
                     _ => Gate::Delay { ns: ms(rng.range(1000, 4000)) },
                 };
                 spec.cuts.push(Cut { at, gate, spurious: rng.below(2) as u8 });
+            }
+            // keep each phase within 85 % of the time it is allowed (later delays of a phase that is over budget are dropped)
+            let (mut in_header, mut after) = (0u64, 0u64);
+            spec.cuts.sort_by_key(|c| c.at);
+            for c in spec.cuts.iter_mut() {
+                if let Gate::Delay { ns } = c.gate {
+                    let sum = if c.at < hl { &mut in_header } else { &mut after };
+                    if *sum + ns > timeout / 100 * 85 {
+                        c.gate = Gate::Now;
+                    } else {
+                        *sum += ns;
+                    }
+                }
             }
             NetClient { connect_at_ns: ms(rng.range(0, 2000)), peer: format!("10.3.0.{}:{}", 1 + i, 44_000 + i), spec, wplan: vec![] }
         })
         .collect();
     NetScenario {
         seed: rng.next_u64(),
-        cfg: NetCfg { timeout_ns: secs(60), proxy: Some(proxy), ..Default::default() },
+        cfg: NetCfg { timeout_ns: timeout, proxy: Some(proxy), ..Default::default() },
         wall: Default::default(),
         services,
         clients,
@@ -435,14 +452,34 @@ fn gen_listener(rng: &mut Rng) -> crate::net::NetScenario {
     }
 }
 
+/// Time the cuts of a client add before the PROXY header is complete / after it.
+fn phase_delays(k: &crate::net::NetClient) -> (u64, u64) {
+    let hl = k.spec.preamble.as_ref().map(|p| p.len() as u64).unwrap_or(0);
+    let (mut a, mut b) = (0u64, 0u64);
+    for x in &k.spec.cuts {
+        let ns = match &x.gate {
+            Gate::Now => 0,
+            Gate::Delay { ns } => *ns,
+            _ => MAX_PAUSE * 100,
+        };
+        if x.at < hl {
+            a = a.saturating_add(ns);
+        } else {
+            b = b.saturating_add(ns);
+        }
+    }
+    (a, b)
+}
+
 /// Listener mode: what each client is sent must not depend on how its bytes (PROXY header included) were cut.
 fn run_listener(n: &crate::net::NetScenario) -> RunReport {
     let c = &n.cfg;
-    if !net_domain_ok(n) || c.use_start || c.proxy.is_none() || c.limiter.is_some() || n.stop_at_ns.is_some() || c.timeout_ns < secs(30) || n.cap_ns < secs(60) || n.clients.is_empty()
+    if !net_domain_ok(n) || c.use_start || c.proxy.is_none() || c.limiter.is_some() || n.stop_at_ns.is_some() || c.timeout_ns < secs(4) || n.cap_ns < secs(60) || n.clients.is_empty() || n.services.discovery.default.lat_ns.is_none_or(|l| l > ms(300))
         || !matches!(&n.services.discovery.default.res, DiscRes::Targets(t) if !t.is_empty())
         || n.clients.iter().any(|k| {
-            let total: u64 = k.spec.cuts.iter().map(|x| match &x.gate { Gate::Now => 0, Gate::Delay { ns } => *ns, _ => MAX_PAUSE * 100 }).sum();
-            !matches!(k.spec.intent, 1..=3) || k.spec.script.is_some() || !k.spec.mutations.is_empty() || !k.wplan.is_empty() || k.spec.preamble.is_none() || k.spec.mute_after.is_some() || k.spec.close_after.is_some() || !k.spec.send_info || !matches!(k.spec.enc, crate::client::EncVariant::Honest) || k.spec.shared_secret.len() != 16 || k.spec.protocol <= 0 || total > secs(20)
+            let (d1, d2) = phase_delays(k);
+            let total = if d1 > c.timeout_ns / 100 * 85 || d2 > c.timeout_ns / 100 * 85 { u64::MAX } else { 0 };
+            !matches!(k.spec.intent, 1..=3) || k.spec.script.is_some() || !k.spec.mutations.is_empty() || !k.wplan.is_empty() || k.spec.preamble.is_none() || k.spec.mute_after.is_some() || k.spec.close_after.is_some() || !k.spec.send_info || !matches!(k.spec.enc, crate::client::EncVariant::Honest) || k.spec.shared_secret.len() != 16 || k.spec.protocol <= 0 || total > secs(20) || k.spec.info_delay_ns != 0 || k.spec.ack_delay_ns != 0 || k.spec.ping_delay_ns != 0 || !k.spec.login_think_ns.is_empty()
         })
     {
         return RunReport::default();
